@@ -1,0 +1,10 @@
+//go:build verif
+
+package verifhook
+
+import "github.com/open2b/scriggo/internal/compiler"
+
+var (
+	PoolAdds  = compiler.VerifPoolAdds
+	Encodings = compiler.VerifEncodings
+)
